@@ -657,3 +657,101 @@ def _free(t, bound=()):
     if k == "forall":
         return _free(t[3], tuple(bound) + (t[1],))
     return False
+
+
+# ------------------------------------------------------------------ free-form stream (model fidelity only)
+
+FREE_TYPES = [
+    "(forall a t (-> (tv a) (tv a)))", "(forall a t (-> (tv a) dyn))", "(forall a t (-> dyn (tv a)))",
+    "(forall a t (-> (arr (tv a)) (arr (tv a))))", "(forall a t (-> (arr (tv a)) (tv a)))",
+    "(forall a t (-> (tv a) (arr (tv a))))", "(forall a t (forall b t (-> (tv a) (-> (tv b) (tv a)))))",
+    "(forall a t (forall b t (-> (-> (tv a) (tv b)) (-> (tv a) (tv b)))))",
+    "(forall r r (-> (rect r (fa num)) (rect r (fa num))))", "(forall r r (-> (rect r (fa num)) dyn))",
+    "(forall r r (-> (rect r) (rect r (fb num))))", "(forall a t (-> (rect - (fa (tv a))) (tv a)))",
+    "(forall a t (forall r r (-> (rect r (fa (tv a))) (tv a))))",
+    "(-> (forall a t (-> (tv a) (tv a))) num)", "(-> num num)", "(-> dyn dyn)", "(arr num)", "num", "dyn",
+    "(rect - (fa num))", "(rect dyn (fa num))", "(-> (rect dyn (fa num)) num)",
+]
+
+
+class Free:
+    """random closed terms of the model language with polymorphic contracts sprinkled in; mostly ill-typed"""
+
+    def __init__(self, rng):
+        self.rng = rng
+        self.n = 0
+
+    def var(self):
+        self.n += 1
+        return "u%d" % self.n
+
+    def lit(self):
+        rng = self.rng
+        return rng.choice(["(n %d)" % rng.range(-2, 9), "(b t)", "(b f)", "(s a)", "(s bc)",
+                           "(arr (n 1) (n 2))", "(rec (fa (n 1)) (fb (s x)))", "(rec (fa (n 2)))", "(rec)", "(arr)"])
+
+    def term(self, d, vs):
+        rng = self.rng
+        if d <= 0 or rng.chance(1, 6):
+            if vs and rng.chance(2, 3):
+                return "(v %s)" % rng.choice(vs)
+            return self.lit()
+        c = rng.below(20)
+        t = lambda: self.term(d - 1, vs)
+        if c == 0:
+            x = self.var()
+            return "(lam %s %s)" % (x, self.term(d - 1, vs + [x]))
+        if c in (1, 2):
+            x = self.var()
+            return "(app (lam %s %s) %s)" % (x, self.term(d - 1, vs + [x]), t())
+        if c == 3:
+            x = self.var()
+            return "(let %s %s %s)" % (x, t(), self.term(d - 1, vs + [x]))
+        if c == 4:
+            return "(if %s %s %s)" % (rng.choice(["(b t)", "(b f)", t()]), t(), t())
+        if c == 5:
+            return "(o1 %s %s)" % (rng.choice(["isnum", "isbool", "isstr", "isfun", "isarr", "isrec", "not", "length", "fields", "freeze", "tostr"]), t())
+        if c == 6:
+            return "(o2 %s %s %s)" % (rng.choice(["add", "sub", "mul", "eq", "eq", "lt", "cat", "at"]), t(), t())
+        if c == 7:
+            return "(arr %s)" % " ".join(t() for _ in range(rng.range(0, 3)))
+        if c == 8:
+            x = self.var()
+            return "(amap (lam %s %s) %s)" % (x, self.term(d - 1, vs + [x]), t())
+        if c == 9:
+            ls = rng.shuffle(["fa", "fb", "fc"])[:rng.range(0, 3)]
+            return "(rec %s)" % " ".join("(%s %s)" % (l, t()) for l in ls)
+        if c == 10:
+            return "(getf %s %s)" % (rng.choice(["fa", "fb", "fc"]), t())
+        if c == 11:
+            return "(ins %s %s %s)" % (rng.choice(["fa", "fb", "fc"]), t(), t())
+        if c == 12:
+            return "(%s %s %s)" % (rng.choice(["remove", "hasf"]), rng.choice(["fa", "fb", "fc"]), t())
+        if c == 13:
+            x, y = self.var(), self.var()
+            return "(rmap (lam %s (lam %s %s)) %s)" % (x, y, self.term(d - 1, vs + [x, y]), t())
+        if c == 14:
+            return "(seq %s %s)" % (t(), t())
+        if c in (15, 16, 17):
+            # a contracted function applied to arguments
+            ty = rng.choice(FREE_TYPES)
+            x = self.var()
+            f = "(lam %s %s)" % (x, self.term(d - 1, vs + [x]))
+            if "(-> " in ty and rng.chance(1, 2):
+                y = self.var()
+                f = "(lam %s (lam %s %s))" % (x, y, self.term(d - 1, vs + [x, y]))
+            e = "(app (ann %s %s) %s)" % (ty, f, t())
+            if rng.chance(1, 3):
+                e = "(app %s %s)" % (e, t())
+            return e
+        if c == 18:
+            return "(ann %s %s)" % (rng.choice(FREE_TYPES), t())
+        return "(app %s %s)" % (t(), t())
+
+
+def free_cases(rng, n):
+    g = Free(rng)
+    out = []
+    for _ in range(n):
+        out.append({"sx": g.term(rng.range(2, 4), []), "klass": "free", "prim": "-", "feat": ["free-form"]})
+    return out
